@@ -22,6 +22,7 @@ import (
 	"sync/atomic"
 	"time"
 
+	"github.com/hprose/hprose-golang/v3/internal/verifhook"
 	"github.com/hprose/hprose-golang/v3/io"
 	"github.com/hprose/hprose-golang/v3/rpc/core"
 	"github.com/modern-go/reflect2"
@@ -230,6 +231,9 @@ func (c *Caller) close(ctx context.Context) {
 }
 
 func (c *Caller) begin(ctx context.Context) []call {
+	if verifhook.On {
+		verifhook.Gate("reverse.pollStart", c.ID(ctx))
+	}
 	id := c.stop(ctx)
 	online := make(chan bool, 1)
 	c.onlines.Upsert(id, online, func(exist bool, valueInMap, newValue interface{}) interface{} {
@@ -255,6 +259,9 @@ func (c *Caller) begin(ctx context.Context) []call {
 	}
 	responder := make(chan []call, 1)
 	if !c.send(id, responder) {
+		if verifhook.On {
+			verifhook.Gate("reverse.pollEmpty", id)
+		}
 		c.responders.Upsert(id, responder, func(exist bool, valueInMap interface{}, newValue interface{}) interface{} {
 			if exist {
 				valueInMap.(chan []call) <- nil
@@ -266,6 +273,9 @@ func (c *Caller) begin(ctx context.Context) []call {
 			defer cancel()
 			select {
 			case <-ctx.Done():
+				if verifhook.On {
+					verifhook.Gate("reverse.pollTimeout", id)
+				}
 				for {
 					// give the responder up only if it is still the registered one;
 					// otherwise an Invoke has taken it: wait for what it does with it,
@@ -334,6 +344,9 @@ func (c *Caller) InvokeContext(ctx context.Context, id string, name string, args
 	result := make(chan returnValue, 1)
 	results.Set(index, result)
 	c.response(id)
+	if verifhook.On {
+		verifhook.Gate("reverse.invokeQueued", id, index)
+	}
 	if c.Timeout > 0 {
 		ctx, cancel := context.WithTimeout(ctx, c.Timeout)
 		defer cancel()
